@@ -337,44 +337,8 @@ def run_item(ctx, item):
     elif kind == "divchange":
         # configurations the shared generator does not make: the divisions change INSIDE a measure, at a position where an
         # object starts, inside a note, or in a silent stretch where the timeline has no time point at all
-        q = rng.choice([2, 4, 6])
-        f = rng.choice([2, 3])
-        where = rng.choice(["at-onset", "inside-note", "silent"])
-        part = S.Part("P1", "divchange", quarter_duration=q)
-        part.add(S.TimeSignature(4, 4), 0)
-        part.add(S.Clef(1, "G", 2, 0), 0)
-        n_before = rng.randint(0, 2)
-        t = 0
-        k = 0
-        for m in range(n_before):
-            part.add(S.Measure(number=m + 1), t, t + 4 * q)
-            for j in range(4):
-                part.add(S.Note(rng.choice("CDEFGAB"), 4, id=f"n{k}", voice=1, staff=1, symbolic_duration={"type": "quarter"}), t + j * q, t + (j + 1) * q)
-                k += 1
-            t += 4 * q
-        # the measure with the change: one quarter note, one quarter of silence or a half note, then two quarters in the new divisions
-        m_start = t
-        long_first = where == "inside-note"
-        part.add(S.Note("G", 4, id=f"n{k}", voice=1, staff=1, symbolic_duration={"type": "half" if long_first else "quarter"}),
-                 t, t + (2 * q if long_first else q))
-        k += 1
-        if where == "at-onset":
-            change = t + 2 * q
-        else:
-            cands = [x for x in range(t + q + 1, t + 2 * q)] or [t + q]
-            change = rng.choice(cands)
-        rest_old = t + 2 * q - change                 # old divisions left of the second quarter
-        new_t = change + rest_old * f                  # where the third quarter starts
-        for j in range(2):
-            part.add(S.Note(rng.choice("CDEFGAB"), 4, id=f"n{k}", voice=1, staff=1, symbolic_duration={"type": "quarter"}),
-                     new_t + j * q * f, new_t + (j + 1) * q * f)
-            k += 1
-        m_end = new_t + 2 * q * f
-        part.add(S.Measure(number=n_before + 1), m_start, m_end)
-        part.set_quarter_duration(change, q * f)
-        if rng.random() < 0.5:
-            part.add(S.Measure(number=n_before + 2), m_end, m_end + 4 * q * f)
-            part.add(S.Note("C", 5, id=f"n{k}", voice=1, staff=1, symbolic_duration={"type": "whole"}), m_end, m_end + 4 * q * f)
+        from workloads import gen_score
+        part, q, f, where, change, n_before = gen_score.make_midmeasure_divchange_part(rng)
         sc = S.Score([part], id="dc")
         no_point = part.get_point(change) is None
         nobj = n_objects(sc)
